@@ -191,14 +191,14 @@ def retry_stream(ctx, hexe, dexe, n_lines, kbytes):
             ctx.hist("retry.kind", kind)
             ctx.hist("retry.result", o1[i].split()[0].split(":")[0])
             msg = retry_oracle(ln, o1[i])
-            if msg:
+            if msg and len(ctx.violations) < 12:
                 ctx.violation(msg, {"stream": "retry", "ops": [ln], "impl": o1[i]})
                 found = True
         if done <= batch:
             for i in range(3):
                 ctx.sample({"stream": "retry", "op": lines[i][:160], "impl": o1[i][:200]})
         d = stream.first_diff(o1, o2)
-        if d is not None or rc2 != 0:
+        if (d is not None or rc2 != 0) and len(ctx.violations) < 12:
             bad = [lines[d]] if d is not None and d < len(lines) else lines
             ctx.violation("model and implementation disagree on a retry loop",
                           {"stream": "retry", "ops": bad, "impl": o1[d] if d is not None and d < len(o1) else None,
@@ -441,9 +441,9 @@ def fault_stream(ctx, bdir, shim):
                     ctx.hist("faults.class", job[1])
                     ctx.hist("faults.outcome", "rc=0" if rc == 0 else ("timeout" if rc == "timeout" else ("signal" if rc < 0 else "rc!=0")))
                     if rc == "timeout":
-                        # lmplz: an exception while the sort of step 3 is being set up unwinds through ~Chains,
+                        # lmplz: an exception raised while chains are running (file creation fails) unwinds through ~Chains,
                         # which joins worker threads that never receive poison (deadlock; no success reported)
-                        key = KNOWN_HANG if (tool.name.startswith("lmplz") and job[1] in ("mkstemp", "ftruncate") and fired) else None
+                        key = KNOWN_HANG if (tool.name.startswith("lmplz") and job[1] in ("mkstemp", "ftruncate", "open") and fired) else None
                         totals["hangs"] = totals.get("hangs", 0) + 1
                         if ctx.violation("%s hangs (no exit within the timeout) after %s #%d failed with %s" % (
                                 tool.name, job[1], job[2], job[3]), with_inputs(replay, base), key=key):
